@@ -429,6 +429,41 @@ def r2_implicit(ctx):
                     yield Ob(km('(l) error_html:%s escape_html_chars(%s) as an operand' % (q_, norm(a_, 40))), safe, ctx.floc(f_, o_),
                              '' if safe else 'escape_html_chars answers None for None and `%s` can be None (a segment of blanks only has no identifier): '
                              'None + str raises TypeError out of validation when the HTML report is requested' % norm(a_, 40))
+    # (m) what a segment answers for an absent element / a missing identifier is None (Segment.get_value, get_seg_id): used
+    #     directly as an operand of `+` next to a text, or as an item of a join, it raises TypeError for a segment without
+    #     elements or of blanks only.  (%-formatting and str.format take None.)
+    nm_ = 0
+    for mod_ in ('map_walker', 'x12n_document', 'x12context', 'map_if', 'error_handler', 'error_html', 'error_997', 'error_999', 'x12xml', 'x12xml_simple'):
+        for q_, f_ in ctx.functions(mod_):
+            for x in ast.walk(f_):
+                ops = []
+                if isinstance(x, ast.BinOp) and isinstance(x.op, ast.Add):
+                    flat, st_ = [], [x]
+                    while st_:
+                        y_ = st_.pop()
+                        if isinstance(y_, ast.BinOp) and isinstance(y_.op, ast.Add):
+                            st_.extend([y_.right, y_.left])
+                        else:
+                            flat.append(y_)
+                    if any(A.is_str(y_) or isinstance(y_, ast.JoinedStr) for y_ in flat):
+                        ops = [x.left, x.right]
+                elif isinstance(x, ast.Call) and isinstance(x.func, ast.Attribute) and x.func.attr == 'join' and x.args and isinstance(x.args[0], (ast.List, ast.Tuple)):
+                    ops = list(x.args[0].elts)
+                for o_ in ops:
+                    if isinstance(o_, ast.Call) and isinstance(o_.func, ast.Attribute) and o_.func.attr in ('get_value', 'get_seg_id') \
+                            and (path_of(o_.func.value) or '').split('.')[-1] in ('seg_data', 'seg', 'segment', 'seg_data_orig', 'cur_seg'):
+                        # (under a test of the same answer it is known not to be None)
+                        anc_, guarded_ = A.enclosing(o_, (ast.If, ast.IfExp)), False
+                        while anc_ is not None and not guarded_:
+                            guarded_ = ast.unparse(o_) in ast.unparse(anc_.test)
+                            anc_ = A.enclosing(anc_, (ast.If, ast.IfExp))
+                        if guarded_:
+                            continue
+                        nm_ += 1
+                        yield Ob(km('(m) %s:%s %s joined to a text' % (mod_, q_, norm(o_, 40))), False, ctx.floc(f_, o_),
+                                 '`%s` is None for a segment without that element / of blanks only: None next to a text in `+` or join raises TypeError out of '
+                                 'validation (%%-formatting or str.format would print it)' % norm(o_, 40))
+    yield Ob(km('(m) segment answers are not concatenated unguarded'), True, 'pyx12', '', note='%d site(s) found' % nm_)
     # (k) text taken from a segment (get_value: None when the element is absent) or still at its initial None, kept in a
     #     local of a driver: slicing it or calling a string method on it needs a truth / None test on the way, or a fence
     for mod, qual in (('x12n_document', 'x12n_document'), ('x12context', 'X12ContextReader.iter_segments')):
